@@ -54,6 +54,27 @@ func runC01(ctx *Ctx) *Report {
 		c.Doc, c.DocText, c.Tree = hx(doc), docText(doc), encForest(f)
 		cases = append(cases, c)
 	}
+	// forests that are large in one dimension: depth, fan-out, number of roots, name length, total size
+	for bi, name := range bigShapeOrder {
+		f := bigShapes()[name]
+		for si, sp := range []Spelling{plainSpelling, coveringSpellings()[5], coveringSpellings()[10]} {
+			if !representable(f, sp) {
+				continue
+			}
+			if name == "huge" && si > 0 {
+				continue
+			}
+			doc := spell(f, sp)
+			c := newCase("out")
+			c.Mode, c.Fmt = []string{"iter-text", "batch-text"}[(bi+si)%2], formats[(bi+si)%len(formats)]
+			c.Doc, c.DocText, c.Tree, c.Note = hx(doc), "<"+name+">", "", "big:"+name
+			cases = append(cases, c)
+			if len(f) == 1 {
+				c.Mode, c.Massive = "iter-text", true
+				cases = append(cases, c)
+			}
+		}
+	}
 	rep.Exhaustive = true
 	rep.Notes = append(rep.Notes, "exhaustive: every ordered forest with ≤ "+itoa(n)+" nodes over "+itoa(len(alphabet))+" names (plain spelling, default format) + one rotating (spelling, format) pair each")
 	// random large forests with hostile names in random spellings/formats
@@ -92,7 +113,7 @@ func runC01(ctx *Ctx) *Report {
 		}
 	}
 	runCases(rep, cases, ctx.Workers, func(c Case) bool {
-		return nonTrivialEnc(c.Tree)
+		return c.Tree == "" || nonTrivialEnc(c.Tree)
 	})
 	return rep
 }
